@@ -112,6 +112,21 @@ func vfC05(w *vfWorld) {
 	// a quarter of the worlds run the same configuration migrated to the alpha (YAML) format by the product's own converter
 	cfg.Alpha = t.Prob("c05.alpha-config", 250)
 	cs.PKCE, cs.SkipNonce, cs.PerRequest = cfg.PKCE, cfg.SkipNonce, cfg.CSRFPerRequest
+	if t.Prob("c05.entra", 120) {
+		// the Microsoft Entra ID flavour of the OIDC provider: its issuer must look like https://login.microsoftonline.com/<tenant>/v2.0,
+		// so these worlds reach their provider over TLS (simulated CA, --provider-ca-file); half of them list the tenants they admit
+		cfg.Provider = "entra-id"
+		cfg.IdpURL = "https://login.microsoftonline.com/tenant-a/v2.0"
+		cfg.Extra = append(cfg.Extra, "--provider-ca-file="+w.writeFile("sim-ca.pem", vfTLSMaterial().CAPEM))
+		switch t.Choice("c05.entra-tenants", 3) {
+		case 1:
+			cfg.Extra = append(cfg.Extra, "--entra-id-allowed-tenant=tenant-a")
+		case 2:
+			cfg.Extra = append(cfg.Extra, "--entra-id-allowed-tenant=tenant-b", "--entra-id-allowed-tenant=tenant-a")
+		}
+		w.idpURL = cfg.IdpURL
+		w.probe("c05:entra-id")
+	}
 	idp := w.StartIdP()
 	// what the provider's metadata says about PKCE is advisory: the operator's configured method is what the statement
 	// binds every authorization request to
